@@ -449,3 +449,141 @@ func boundOnceSites(p *Prog, fn *ssa.Function) []ssa.Instruction {
 	}
 	return out
 }
+
+// ---- lock balance (may-analysis) -------------------------------------------
+
+// mayLocks computes, for every instruction of fn, the set of locks that MAY be
+// held just before it (join = union), counting only locks acquired inside fn.
+func (ls *Locksets) mayLocks(fn *ssa.Function) map[ssa.Instruction]lockset {
+	at := map[ssa.Instruction]lockset{}
+	if len(fn.Blocks) == 0 {
+		return at
+	}
+	in := map[*ssa.BasicBlock]lockset{fn.Blocks[0]: {}}
+	work := []*ssa.BasicBlock{fn.Blocks[0]}
+	for len(work) > 0 {
+		b := work[0]
+		work = work[1:]
+		cur := in[b].clone()
+		for _, x := range b.Instrs {
+			at[x] = cur.clone()
+			if op, ok := lockOpOf(x); ok {
+				if op.acquire {
+					cur[op.key] = true
+				} else {
+					delete(cur, op.key)
+				}
+			}
+		}
+		for _, s := range b.Succs {
+			old := in[s]
+			n := lockset{}
+			for k := range old {
+				n[k] = true
+			}
+			for k := range cur {
+				n[k] = true
+			}
+			if old == nil || len(n) != len(old) {
+				in[s] = n
+				work = append(work, s)
+			}
+		}
+	}
+	return at
+}
+
+// deferredUnlocks returns the lock keys fn releases through `defer mu.Unlock()`.
+func deferredUnlocks(fn *ssa.Function) map[string]bool {
+	out := map[string]bool{}
+	eachInstr(fn, func(in ssa.Instruction) {
+		d, ok := in.(*ssa.Defer)
+		if !ok {
+			return
+		}
+		n := calleeNameCommon(d.Common())
+		if n == "(*sync.Mutex).Unlock" || n == "(*sync.RWMutex).Unlock" || n == "(*sync.RWMutex).RUnlock" {
+			if len(d.Call.Args) > 0 {
+				if k := lockKeyOf(d.Call.Args[0]); k != "" {
+					out[k] = true
+				}
+			}
+		}
+	})
+	return out
+}
+
+// ruleLockBalance: every lock a function takes is released on every path to
+// every return (or by a deferred unlock); no lock is taken while it is
+// already definitely held by the same function; no unlock without a lock.
+func ruleLockBalance(c *Check, a *Analysis, rule string, locks ...string) {
+	p := c.P
+	ls := a.Locks()
+	want := map[string]bool{}
+	for _, l := range locks {
+		want[l] = true
+	}
+	c.Rule(rule, "every acquisition of "+strings.Join(locks, " / ")+" is released on every path to every return of the acquiring function (explicitly or by a deferred unlock), and the lock is never re-acquired while definitely held", 2)
+	sc := siteCounter{}
+	for _, fn := range p.Fns {
+		uses := false
+		eachInstr(fn, func(in ssa.Instruction) {
+			if op, ok := lockOpOf(in); ok && want[op.key] {
+				uses = true
+			}
+		})
+		if !uses {
+			continue
+		}
+		may := ls.mayLocks(fn)
+		def := deferredUnlocks(fn)
+		eachInstr(fn, func(in ssa.Instruction) {
+			if _, isRet := in.(*ssa.Return); isRet {
+				if len(in.Block().Preds) == 0 && in.Block() != fn.Blocks[0] {
+					return // recover block
+				}
+				for k := range may[in] {
+					if !want[k] || def[k] {
+						continue
+					}
+					// feasibility: is this return reachable from a Lock(k) without passing an Unlock(k)?
+					leaked := false
+					var trail string
+					eachInstr(fn, func(l ssa.Instruction) {
+						op, ok := lockOpOf(l)
+						if !ok || !op.acquire || op.key != k || leaked {
+							return
+						}
+						if _, tr, found := p.reachFrom(fn, l, func(x ssa.Instruction) bool { return x == in }, func(x ssa.Instruction) bool {
+							o2, ok2 := lockOpOf(x)
+							return ok2 && !o2.acquire && o2.key == k
+						}); found {
+							leaked = true
+							trail = p.lineTrail(tr)
+						}
+					})
+					c.Ob(rule, sc.key(fn, "return releases "+k), p.InstrPos(in), !leaked, ifs(leaked, "a path returns with "+k+" still held ("+trail+"): the next caller that needs the lock blocks forever"))
+				}
+				for k := range want {
+					if !may[in][k] {
+						// still count the obligation when the function takes this lock at all
+						takes := false
+						eachInstr(fn, func(l ssa.Instruction) {
+							if op, ok := lockOpOf(l); ok && op.acquire && op.key == k {
+								takes = true
+							}
+						})
+						if takes {
+							c.Ob(rule, sc.key(fn, "return releases "+k), p.InstrPos(in), true, "")
+						}
+					}
+				}
+			}
+			if op, ok := lockOpOf(in); ok && want[op.key] && op.acquire {
+				// definitely held already (by this function, not by the caller contract)
+				held := ls.at[in] != nil && ls.at[in][op.key] && !ls.entry[fn][op.key]
+				c.Ob(rule, sc.key(fn, "no re-lock of "+op.key), p.InstrPos(in), !held, ifs(held, op.key+" is locked while this function already holds it: self-deadlock"))
+			}
+		})
+	}
+}
